@@ -26,6 +26,10 @@ def pushesClean : Frame → Bool
   | .runSpLock | .runRetChk | .runRetAfter => true
   | _ => false
 
+def freshFr : Frame → Bool
+  | .mInit | .cRdTp2 _ => true
+  | _ => false
+
 def bn (g : Frame → Bool) (f : Frame) : Nat := if g f = true then 1 else 0
 
 /-- a clean-up frame has a level frame below it -/
@@ -82,13 +86,14 @@ structure ShapeM (s s' : State) (t : Tid) (fr : Frame) (rest : List Frame) : Pro
     (HasMx th'.stack → HasMx (fr :: rest) ∨ isLock fr = true) ∧
     (isUnlock fr = true → s.pool ≠ none → HasMx th'.stack → HasMx rest)
   mo : ∀ p, s.pool = some p → s'.pool = none ∨ ∃ p', s'.pool = some p' ∧
-    (p'.mOwner = p.mOwner ∨ (isLock fr = true ∧ p'.mOwner = some t) ∨ (isUnlock fr = true ∧ p'.mOwner = none) ∨
-      (p' = mkPool 0x100 0 4))
-  mo0 : s.pool = none → ∀ p', s'.pool = some p' → p'.mOwner = none
+    (isLock fr = true → p'.mOwner = some t) ∧ (isUnlock fr = true → p'.mOwner = none) ∧
+    (isLock fr = false → isUnlock fr = false → p'.mOwner = p.mOwner ∨
+      (freshFr fr = true ∧ p'.mOwner = none ∧ p'.ctxs = [] ∧ p'.nextCtx = 0 ∧ s.tp = false))
+  mo0 : s.pool = none → ∀ p', s'.pool = some p' → freshFr fr = true
 
 set_option maxHeartbeats 16000000 in
 theorem shapeM (s : State) (t : Tid) (th : Thread) (fr : Frame) (rest : List Frame)
-    (hth : s.threads t = some th) (hst : th.stack = fr :: rest) :
+    (hth : s.threads t = some th) (hst : th.stack = fr :: rest) (hinit : fr = .mInit → s.pool = none) :
     ShapeM s (stepFrame s t th fr).1 t fr rest := by
   cases fr <;> simp only [stepFrame] <;> repeat' split
   all_goals
@@ -107,12 +112,225 @@ theorem shapeM (s : State) (t : Tid) (th : Thread) (fr : Frame) (rest : List Fra
       · simp [Thread.cont, hst, hasMx_cons, hasMx_nil, isMx, isLM, isClean, isUnlock]
         try (intros; simp_all; done)
     · intro p hp
-      simp [setThread, setSig, setPool, setFut, withFault, destroySig, isLock, isUnlock, setFsState] at hp ⊢
+      simp [setThread, setSig, setPool, setFut, withFault, destroySig, isLock, isUnlock, setFsState, freshFr, mkPool] at hp ⊢
       try (simp_all; done)
+      try (have := hinit rfl; simp_all; done)
       try (split <;> simp_all <;> done)
     · intro hp p' hp'
-      simp [setThread, setSig, setPool, setFut, withFault, destroySig, mkPool] at hp hp' ⊢
+      simp [setThread, setSig, setPool, setFut, withFault, destroySig, mkPool, freshFr] at hp hp' ⊢
       try (simp_all; done)
-      try (subst hp'; rfl)
+
+theorem isMx_not_prePool {f : Frame} (h : isMx f = true) : prePool f = false := by
+  cases f <;> simp [isMx, isLM, isClean, prePool] at h ⊢
+
+theorem allPre_noMx {l : List Frame} (h : AllPre l) : ¬ HasMx l := by
+  intro ⟨f, hf, hm⟩
+  have := h f hf
+  rw [isMx_not_prePool hm] at this; cases this
+
+theorem lm_zero_of_noMx {l : List Frame} (h : ¬ HasMx l) : lsum (bn isLM) l = 0 := by
+  induction l with
+  | nil => rfl
+  | cons a l ih =>
+    rw [hasMx_cons] at h
+    simp only [lsum_cons]
+    have h1 : isLM a = false := by
+      cases hc : isLM a with
+      | false => rfl
+      | true => exact absurd (Or.inl (by simp [isMx, hc])) h
+    rw [ih (fun h2 => h (Or.inr h2))]
+    simp [bn, h1]
+
+theorem isLock_props {f : Frame} (h : isLock f = true) :
+    isUnlock f = false ∧ isMx f = false ∧ freshFr f = false := by
+  cases f <;> simp [isLock, isUnlock, isMx, isLM, isClean, freshFr] at h ⊢
+theorem isUnlock_props {f : Frame} (h : isUnlock f = true) : isLM f = true ∧ isMx f = true := by
+  cases f <;> simp [isUnlock, isMx, isLM, isClean] at h ⊢
+theorem lock_blocked {s : State} {t : Tid} {f : Frame} {p : Pool} (h : isLock f = true) (hp : s.pool = some p)
+    (hb : blockedFrame s t f = false) : p.mOwner = none := by
+  cases f <;> simp [isLock] at h <;> simp [blockedFrame, hp] at hb <;> exact hb
+
+
+theorem early_of_fresh {cfg : Config} {s : State} {t : Tid} {th : Thread} {fr : Frame} {rest : List Frame}
+    (hr : Reach cfg s) (hth : s.threads t = some th) (hst : th.stack = fr :: rest) (hfin : th.finished = false)
+    (hf : freshFr fr = true) (htp : s.tp = false) : Early s := by
+  have hSim := reach_inv hr
+  have hl : poolAlive s := by
+    cases Classical.em (poolAlive s) with
+    | inl h => exact h
+    | inr h =>
+      exfalso
+      have hJ := reach_join hr
+      rcases hJ.kinds t th hth with h2 | h2
+      · obtain ⟨th2, h3, h4⟩ := clients_finished_of_dead hr h t h2
+        rw [hth] at h3; injection h3 with h3; subst h3; rw [hfin] at h4; cases h4
+      · have hnb := (hJ.dead h).2.1 t th hth fr (by rw [hst]; exact List.mem_cons_self ..)
+        have hnc := h2 fr (by rw [hst]; exact List.mem_cons_self ..)
+        cases fr <;> simp [freshFr] at hf <;> simp [bottomFr, ncFr] at hnb hnc
+  exact hSim.early hl htp
+
+theorem fresh_tp {s : State} {t : Tid} {th : Thread} {fr : Frame} (hf : freshFr fr = true)
+    (hinit : fr = .mInit → s = State.init s.cfg)
+    (hne : (stepFrame s t th fr).1.pool ≠ s.pool) : s.tp = false := by
+  cases fr <;> simp [freshFr] at hf
+  case mInit => have := hinit rfl; rw [this]; rfl
+  case cRdTp2 c =>
+    cases htp : s.tp with
+    | false => rfl
+    | true => simp [stepFrame, htp, setThread] at hne
+
+/-- the pool mutex: a thread with a critical-section frame owns `_mutex` -/
+structure MInv (s : State) : Prop where
+  lm : ∀ t th, s.threads t = some th → lsum (bn isLM) th.stack ≤ 1
+  cb : ∀ t th, s.threads t = some th → cbOk th.stack
+  mx : ∀ t th p, s.threads t = some th → s.pool = some p → HasMx th.stack → p.mOwner = some t
+
+theorem mInv_init (cfg : Config) : MInv (State.init cfg) := by
+  have hthr : ∀ t th, (State.init cfg).threads t = some th → t = 0 ∧ th = { stack := [Frame.mInit] } := by
+    intro t th h
+    simp only [State.init] at h
+    split at h
+    · next h0 => injection h with h; exact ⟨h0, h.symm⟩
+    · cases h
+  constructor
+  · intro t th h; obtain ⟨_, rfl⟩ := hthr t th h; simp [bn, isLM]
+  · intro t th h; obtain ⟨_, rfl⟩ := hthr t th h; simp [cbOk, isClean]
+  · intro t th p h hp; simp [State.init] at hp
+
+theorem mInv_step {cfg : Config} {s s' : State} {t : Tid} {o : List String}
+    (hr : Reach cfg s) (hI : MInv s) (h : step s t = some (s', o)) : MInv s' := by
+  obtain ⟨th, fr, rest, hth, hst, hfin, hblk, rfl⟩ := step_inv2 h
+  have hSim := reach_inv hr
+  have hJ := reach_join hr
+  have hrest : NoSpec rest := by
+    have := hSim.ringTopOnly t th hth
+    rw [hst] at this; exact this
+  have hok : StackOk (fr :: rest) := by rw [← hst]; exact (reach_safe hr).stk t th hth
+  have hS := shapeS s t th fr rest hth hst hrest hok
+  have h1 := shape1 s t th fr rest hth hst hfin hrest
+  have hinit : fr = .mInit → s.pool = none := by
+    intro e; subst e
+    have := hSim.initOnly t th hth (by rw [hst]; rfl)
+    rw [this]; rfl
+  have hM := shapeM s t th fr rest hth hst hinit
+  obtain ⟨th', hth', _⟩ := h1.self
+  obtain ⟨hlm, _, hcb, hmx, hun⟩ := hM.self th' hth'
+  have hlm0 : lsum (bn isLM) (fr :: rest) ≤ 1 := by rw [← hst]; exact hI.lm t th hth
+  have hcb0 : cbOk (fr :: rest) := by rw [← hst]; exact hI.cb t th hth
+  -- fresh threads have no critical-section frames
+  have hoth : ∀ u thu, u ≠ t → (stepFrame s t th fr).1.threads u = some thu →
+      s.threads u = some thu ∨ (thu.stack = [.tStart, .wPop1] ∨ thu.stack = [.tStart, .cNext]) := by
+    intro u thu hu hthu
+    rcases hS.others u hu with h2 | ⟨h2, h3 | ⟨sc, h3⟩⟩
+    · left; rw [← h2]; exact hthu
+    · right; rw [hthu] at h3; injection h3 with h3; subst h3; exact Or.inl rfl
+    · right; rw [hthu] at h3; injection h3 with h3; subst h3; exact Or.inr rfl
+  constructor
+  · intro u thu hthu
+    by_cases hu : u = t
+    · subst hu; rw [hth'] at hthu; injection hthu with hthu; subst hthu
+      cases hl : isLock fr with
+      | false => simp only [hl, Bool.false_eq_true, if_false] at hlm; omega
+      | true =>
+        simp only [hl, if_true] at hlm
+        -- the lock was free, so this thread had no critical-section frame
+        cases hp : s.pool with
+        | none =>
+          have : (stepFrame s u th fr).1.threads u = some th := by
+            cases fr <;> simp [isLock] at hl <;> simp [stepFrame, hp, withFault, hth]
+          rw [hth'] at this; injection this with this; subst this
+          exact hI.lm u _ hth
+        | some p =>
+          have hfree := lock_blocked hl hp hblk
+          have hno : ¬ HasMx (fr :: rest) := by
+            intro hm
+            have := hI.mx u th p hth hp (by rw [hst]; exact hm)
+            rw [hfree] at this; cases this
+          have := lm_zero_of_noMx hno
+          omega
+    · rcases hoth u thu hu hthu with h2 | h2 | h2
+      · exact hI.lm u thu h2
+      · rw [h2]; simp [bn, isLM]
+      · rw [h2]; simp [bn, isLM]
+  · intro u thu hthu
+    by_cases hu : u = t
+    · subst hu; rw [hth'] at hthu; injection hthu with hthu; subst hthu; exact hcb hcb0
+    · rcases hoth u thu hu hthu with h2 | h2 | h2
+      · exact hI.cb u thu h2
+      · rw [h2]; simp [cbOk, isClean]
+      · rw [h2]; simp [cbOk, isClean]
+  · intro u thu p' hthu hp' hm
+    have hinit2 : fr = .mInit → s = State.init s.cfg := by
+      intro e; subst e
+      have := hSim.initOnly t th hth (by rw [hst]; rfl)
+      rw [this]; rfl
+    -- when the step creates the pool, no thread is in pool code
+    have hfreshNo : freshFr fr = true → s.tp = false → False := by
+      intro hf htp
+      have hE := early_of_fresh hr hth hst hfin hf htp
+      by_cases hu : u = t
+      · subst hu; rw [hth'] at hthu; injection hthu with hthu; subst hthu
+        rcases hmx hm with h2 | h2
+        · exact allPre_noMx (by rw [← hst]; exact hE.pre u th hth) h2
+        · cases fr <;> simp [freshFr] at hf <;> simp [isLock] at h2
+      · rcases hoth u thu hu hthu with h2 | h2 | h2
+        · exact allPre_noMx (hE.pre u thu h2) hm
+        · rw [h2] at hm; simp [hasMx_cons, hasMx_nil, isMx, isLM, isClean] at hm
+        · rw [h2] at hm; simp [hasMx_cons, hasMx_nil, isMx, isLM, isClean] at hm
+    cases hp : s.pool with
+    | none =>
+      exfalso
+      have hfr := hM.mo0 hp p' hp'
+      exact hfreshNo hfr (fresh_tp hfr hinit2 (by rw [hp, hp']; exact fun h => by cases h))
+    | some p =>
+      rcases hM.mo p hp with h2 | ⟨p2, h2, hk, hun2, hsame⟩
+      · rw [h2] at hp'; cases hp'
+      · rw [h2] at hp'; injection hp' with hp'; subst hp'
+        by_cases hu : u = t
+        · subst hu; rw [hth'] at hthu; injection hthu with hthu; subst hthu
+          cases hl : isLock fr with
+          | true => exact hk hl
+          | false =>
+            rcases hmx hm with hold | hlock
+            · have hown := hI.mx u th p hth hp (by rw [hst]; exact hold)
+              cases hul : isUnlock fr with
+              | true =>
+                exact (noMx_below_level (isUnlock_props hul).1 hlm0 hcb0 (hun hul (by rw [hp]; exact fun h => by cases h) hm)).elim
+              | false =>
+                rcases hsame hl hul with h3 | ⟨h3, _, _, _, h4⟩
+                · rw [h3]; exact hown
+                · exact (hfreshNo h3 h4).elim
+            · rw [hl] at hlock; cases hlock
+        · rcases hoth u thu hu hthu with h3 | h3 | h3
+          · have hown := hI.mx u thu p h3 hp hm
+            cases hl : isLock fr with
+            | true => rw [lock_blocked hl hp hblk] at hown; cases hown
+            | false =>
+              cases hul : isUnlock fr with
+              | true =>
+                have := hI.mx t th p hth hp (by rw [hst]; exact hasMx_cons.mpr (Or.inl (isUnlock_props hul).2))
+                rw [this] at hown; injection hown with hown; exact absurd hown.symm hu
+              | false =>
+                rcases hsame hl hul with h4 | ⟨h4, _, _, _, h5⟩
+                · rw [h4]; exact hown
+                · exact (hfreshNo h4 h5).elim
+          · rw [h3] at hm; simp [hasMx_cons, hasMx_nil, isMx, isLM, isClean] at hm
+          · rw [h3] at hm; simp [hasMx_cons, hasMx_nil, isMx, isLM, isClean] at hm
+
+theorem reach_minv {cfg : Config} {s : State} (h : Reach cfg s) : MInv s := by
+  induction h with
+  | init => exact mInv_init cfg
+  | step t hr hs ih => exact mInv_step hr ih hs
+
+/-- mutual exclusion of the critical sections of `ThreadPool::run` -/
+theorem pool_mutex_exclusive {cfg : Config} {s : State} (h : Reach cfg s) {t u : Tid} {tht thu : Thread}
+    (ht : s.threads t = some tht) (hu : s.threads u = some thu)
+    (hmt : HasMx tht.stack) (hmu : HasMx thu.stack) (hp : s.pool ≠ none) : t = u := by
+  cases hpp : s.pool with
+  | none => exact absurd hpp hp
+  | some p =>
+    have h1 := (reach_minv h).mx t tht p ht hpp hmt
+    have h2 := (reach_minv h).mx u thu p hu hpp hmu
+    rw [h1] at h2; injection h2
 
 end Nstd.Future
